@@ -1,5 +1,5 @@
 """E2: analyses over mirfacts JSON (CFG, dominators, pruning, slices, call graph)."""
-import json
+import json, os
 import re
 from collections import defaultdict
 
@@ -106,7 +106,8 @@ class Facts:
             _inline_unknown_helpers(d, self.inlined)
         self.spliced = {}
         if desugar:
-            _inline_local_closure_calls(d, self.spliced)
+            if not os.environ.get("VERIF_NO_LOCAL_CLOSURES"):
+                _inline_local_closure_calls(d, self.spliced)
             _desugar_combinators(d, self.spliced)
         self.threaded = [f["id"] for f in d["functions"] if _thread_known_variants(f)]
         for f in d["functions"]:
@@ -1255,6 +1256,7 @@ def _inline_local_closure_calls(d, record, max_blocks=1500):
     it become children of the caller.  The closure stays a function of the program when it is also used as a value.
     (Part of the normalised view only; today's tree has no such call.)"""
     by_id = {}
+    done = set()
     for f in d["functions"]:
         by_id.setdefault(f["id"], []).append(f)
     for raw in d["functions"]:
@@ -1305,6 +1307,63 @@ def _inline_local_closure_calls(d, record, max_blocks=1500):
                     raw["inlined"].append(x)
             home.add(graw["id"])
             record.setdefault(raw["id"], []).append(graw["id"])
+            done.add(graw["id"])
+    # a local closure whose every use was a direct call is no longer a function of the program (its aggregate statement
+    # stays in the caller as a dead value); one that is also passed somewhere as a value, or still called, stays
+    if done:
+        used = set()
+
+        def walk(o):
+            if isinstance(o, dict):
+                if o.get("t") == "call":
+                    if o.get("resolved") in done:
+                        used.add(o["resolved"])
+                    for a in o.get("args", []):
+                        c = a.get("closure") if isinstance(a, dict) else None
+                        if c in done:
+                            used.add(c)
+                for v in o.values():
+                    walk(v)
+            elif isinstance(o, list):
+                for x in o:
+                    walk(x)
+        for f in d["functions"]:
+            if f["id"] in done:
+                continue
+            # which locals hold one of the closures, and are they an argument of a call
+            holders = {}
+            for b in f["blocks"]:
+                for st in b["st"]:
+                    if st["s"] == "assign" and st["rv"].get("rv") == "agg" and st["rv"].get("agg") == "closure" and st["rv"].get("def") in done and not st["pl"]["p"]:
+                        holders[st["pl"]["l"]] = st["rv"]["def"]
+            if holders:
+                # follow whole-local copies / references
+                for _ in range(4):
+                    for b in f["blocks"]:
+                        for st in b["st"]:
+                            if st["s"] != "assign" or st["pl"]["p"]:
+                                continue
+                            rv = st["rv"]
+                            src = rv["op"]["pl"]["l"] if rv.get("rv") == "use" and rv["op"].get("k") in ("move", "copy") and not rv["op"]["pl"]["p"] else \
+                                rv["pl"]["l"] if rv.get("rv") == "ref" and not rv["pl"]["p"] else None
+                            if src in holders:
+                                holders.setdefault(st["pl"]["l"], holders[src])
+                for b in f["blocks"]:
+                    t = b["term"]
+                    if t and t["t"] == "call":
+                        for a in t["args"]:
+                            if a.get("k") in ("move", "copy") and a["pl"]["l"] in holders:
+                                used.add(holders[a["pl"]["l"]])
+                    # stored into an aggregate (a struct field, a tuple, another closure's environment): still a value
+                    for st in b["st"]:
+                        if st["s"] == "assign" and st["rv"].get("rv") == "agg":
+                            for o in st["rv"]["ops"]:
+                                if o.get("k") in ("move", "copy") and o["pl"]["l"] in holders and not (st["rv"].get("agg") == "closure" and st["rv"].get("def") in done):
+                                    used.add(holders[o["pl"]["l"]])
+            walk(f["blocks"])
+        gone = done - used
+        if gone:
+            d["functions"] = [f for f in d["functions"] if f["id"] not in gone]
 
 
 def _desugar_combinators(d, record, max_passes=6):
